@@ -390,7 +390,7 @@ def gen_batch(rng, nstructs=14, can=False, granular_share=0.0, big=False):
         if gran:
             gprev.append(name)
         if can:
-            bus = rng.choice(["b", "b1", "bus", "can1", "ab", "x"])
+            bus = rng.choice(["b", "b1", "bus", "can1", "ab", "x", "CAN1", "B1", "Bus", "X"])  # also names that differ in letter case only
             # ids from a small pool half of the time: several bindings share an id on different buses (and now and then
             # on the same bus, where the first one wins in both wrappers and in the model)
             cid = rng.choice([0, 0, 7, 100, 1000, 2047]) if rng.random() < 0.5 else rng.randint(0, 2047)
